@@ -2,20 +2,33 @@
 
 package sqlc
 
-// C06 correspondence harness: drives the real sqlc.CachedConn -> cache.cacheNode -> redis.Redis -> miniredis
-// stack with a harness-owned fake database (closures counting queries), one operation per trace line.
+// C06 correspondence harness: drives the real sqlc.CachedConn (sqlc.NewConn -> cache.New: a plain cacheNode for
+// one node, a cacheCluster with consistent-hash dispatch for several) -> cacheNode -> redis.Redis (node-type or
+// cluster-type client) -> one miniredis per cache node, with a harness-owned fake database (closures counting
+// queries), one operation per trace line.
 //
-//   faults    every cache command (GET/SET/DEL) issued by an operation passes a go-redis hook that fails the
-//             i-th command of the operation iff bit i of the op's `c=` mask is 1 (for `tick`: all or none);
+//   nodes     section cfg `nodes=<n> type=<node|cluster> place=<key>:<node>,...`: n miniredis servers; the cache
+//             is built by the real constructors from a cache.CacheConf naming them. Which node the dispatcher
+//             sends a key to depends on pointer values (the ring hashes fmt.Sprint of the cacheNode), so the
+//             harness makes the placement an INPUT: the Redis key of token `p1` is "p1#<salt>" with the
+//             smallest salt for which the dispatcher (observed through cache.VerifC06NodeAddr) picks the node
+//             the section's `place` asks for. Entries are dumped per node, so a key that ends up on another
+//             node than the one probed shows up in the trace.
+//   faults    every GET/SET/DEL reaches its miniredis through a server-side pre-hook that answers with an error
+//             instead of executing it when the op text says so: reads/sets `c=<mask>`: the i-th command of the
+//             operation (issue order); exec/del `c=<m0>/<m1>/...`: the i-th DEL sent to node k fails iff bit i
+//             of m_k (cacheCluster.DelCtx ranges over a map, so only the per-node order is deterministic);
+//             `tick n c=<bits>`: every command to node k fails iff bit k (node down).
 //             `db=1` makes the (single) database call of the operation fail.
-//   jitter    the node's mathx.Unstable draws from a scripted rand.Source: `j=<0..1000>` makes Float64()
+//   jitter    every node's mathx.Unstable draws from a scripted rand.Source: `j=<0..1000>` makes Float64()
 //             return j/1000 (1000 = the largest draw below 1), so the TTL is a function of the op text.
-//   time      miniredis time moves only by `ft <ms>`; the cleaner's timing wheel is swapped for a wheel on a
-//             harness-owned ticker (cache.VerifC06SwapCleaner) and moves only by `tick <n>`.
+//   time      miniredis time moves only by `ft <ms>` (all nodes); the cleaner's timing wheel is swapped for a
+//             wheel on a harness-owned ticker (cache.VerifC06SwapCleaner) and moves only by `tick <n>`.
 //   breaker   redis.Redis wraps every command in a circuit breaker; its rolling window reads timex, so the
 //             harness installs the virtual clock and advances it by 20 s per operation / tick (window 10 s):
-//             the breaker never sees more than one operation's failures.
-// After every operation the whole cache is dumped (key=value@ttl-ms, sorted).
+//             the breaker never sees more than one operation's failures (at most 5 per node: below its
+//             protection threshold).
+// After every operation every node's cache is dumped (node/key=value@ttl-ms, sorted).
 
 import (
 	"context"
@@ -32,7 +45,7 @@ import (
 	"time"
 
 	"github.com/alicebob/miniredis/v2"
-	red "github.com/redis/go-redis/v9"
+	"github.com/alicebob/miniredis/v2/server"
 	"github.com/zeromicro/go-zero/core/logx"
 	"github.com/zeromicro/go-zero/core/stores/cache"
 	"github.com/zeromicro/go-zero/core/stores/redis"
@@ -65,84 +78,124 @@ func (s *c06Src) setJ(j int) {
 	}
 }
 
-type c06Harness struct {
-	mu      sync.Mutex
-	mask    string
-	all     bool // tick mode: every command fails iff allFail
-	allFail bool
-	n       int
-	log     []string
+type c06Cmd struct {
+	name string
+	node int
+	keys []string // tokens
+	fail bool
 }
 
-func (h *c06Harness) begin(mask string, all, allFail bool) {
+func (c c06Cmd) String() string {
+	r := ":ok"
+	if c.fail {
+		r = ":fail"
+	}
+	return fmt.Sprintf("%s/%d/%s%s", c.name, c.node, strings.Join(c.keys, "+"), r)
+}
+
+const (
+	c06ModeOrder = iota // mask over the commands of the operation in issue order
+	c06ModeNode         // one mask per node over the commands sent to that node
+	c06ModeDown         // one bit per node: every command to the node fails
+)
+
+type c06Harness struct {
+	mu    sync.Mutex
+	mode  int
+	masks []string
+	n     int
+	cnt   [8]int
+	log   []c06Cmd
+	tok   map[string]string // Redis key -> token
+}
+
+func (h *c06Harness) begin(mode int, mask string) {
 	h.mu.Lock()
-	h.mask, h.all, h.allFail, h.n, h.log = mask, all, allFail, 0, nil
+	h.mode, h.n, h.log = mode, 0, nil
+	h.cnt = [8]int{}
+	h.masks = strings.Split(mask, "/")
 	h.mu.Unlock()
 }
 
-func (h *c06Harness) next(name string) bool {
+func (h *c06Harness) next(node int, name string, keys []string) bool {
 	h.mu.Lock()
 	defer h.mu.Unlock()
 	fail := false
-	if h.all {
-		fail = h.allFail
-	} else if h.n < len(h.mask) {
-		fail = h.mask[h.n] == '1'
+	bit := func(m string, i int) bool { return i < len(m) && m[i] == '1' }
+	switch h.mode {
+	case c06ModeOrder:
+		fail = bit(h.masks[0], h.n)
+	case c06ModeNode:
+		fail = node < len(h.masks) && bit(h.masks[node], h.cnt[node])
+	case c06ModeDown:
+		fail = bit(h.masks[0], node)
 	}
 	h.n++
-	if fail {
-		h.log = append(h.log, name+":fail")
-	} else {
-		h.log = append(h.log, name+":ok")
+	h.cnt[node]++
+	toks := make([]string, len(keys))
+	for i, k := range keys {
+		t, ok := h.tok[k]
+		if !ok {
+			t = "raw:" + hex.EncodeToString([]byte(k))
+		}
+		toks[i] = t
 	}
+	h.log = append(h.log, c06Cmd{name, node, toks, fail})
 	return fail
 }
 
-func (h *c06Harness) cmds(sorted bool) string {
+// cmds prints the commands of the operation: "order" = as issued, "node" = stably sorted by node,
+// "text" = sorted by their text (the cleaner runs its retries concurrently).
+func (h *c06Harness) cmds(how string) string {
 	h.mu.Lock()
 	defer h.mu.Unlock()
 	if len(h.log) == 0 {
 		return "-"
 	}
-	l := append([]string(nil), h.log...)
-	if sorted {
-		sort.Strings(l)
+	l := append([]c06Cmd(nil), h.log...)
+	if how == "node" {
+		sort.SliceStable(l, func(i, j int) bool { return l[i].node < l[j].node })
 	}
-	return strings.Join(l, ",")
+	out := make([]string, len(l))
+	for i, c := range l {
+		out[i] = c.String()
+	}
+	if how == "text" {
+		sort.Strings(out)
+	}
+	return strings.Join(out, ",")
 }
 
-type c06Hook struct{ h *c06Harness }
-
-func (k c06Hook) DialHook(next red.DialHook) red.DialHook { return next }
-func (k c06Hook) ProcessPipelineHook(next red.ProcessPipelineHook) red.ProcessPipelineHook {
-	return next
-}
-func (k c06Hook) ProcessHook(next red.ProcessHook) red.ProcessHook {
-	return func(ctx context.Context, cmd red.Cmder) error {
-		name := cmd.Name()
-		switch name {
-		case "get", "set", "del", "setnx", "setex":
-		default:
-			return next(ctx, cmd)
-		}
-		if name == "set" {
+// hook is the miniredis pre-hook of cache node `node`.
+func (h *c06Harness) hook(node int) server.Hook {
+	return func(c *server.Peer, cmd string, args ...string) bool {
+		name := ""
+		var keys []string
+		switch cmd {
+		case "GET":
+			name, keys = "get", args[:1]
+		case "DEL":
+			name, keys = "del", args
+		case "SET":
+			name, keys = "set", args[:1]
 			// SETEX / SETNX EX are sent as SET with EX / NX arguments
-			for _, a := range cmd.Args() {
-				if s, ok := a.(string); ok && (s == "nx" || s == "NX") {
+			for _, a := range args[2:] {
+				if a == "nx" || a == "NX" {
 					name = "setnx"
 				}
 			}
+		case "SETEX", "SETNX", "PSETEX", "GETDEL", "GETEX", "UNLINK", "EXPIRE", "PERSIST", "MSET", "MGET", "APPEND":
+			name, keys = strings.ToLower(cmd), args[:1] // not expected: shows up as an unknown command in the trace
+		default:
+			return false
 		}
-		if k.h.next(name) {
-			err := errors.New(c06Injected)
-			cmd.SetErr(err)
-			return err
+		if h.next(node, name, keys) {
+			c.WriteError(c06Injected)
+			return true
 		}
-		return next(ctx, cmd)
+		return false
 	}
 }
-
-func c06Key(tok string) string { return tok } // cache keys are the tokens themselves: p<pk>, x<a>
 
 func c06Val(tok string) (any, string) {
 	// returns the Go value to hand to SetCache and the raw string for `raw`
@@ -211,14 +264,33 @@ func TestVerifC06(t *testing.T) {
 	timex.VerifSetNow(time.Hour)
 	defer timex.VerifClockOff()
 	verifh.Run(t, secs, func(cfg verifh.Cfg) (func(op []string) string, func()) {
-		mr := miniredis.NewMiniRedis()
-		if err := mr.Start(); err != nil {
-			panic(err)
+		nodes := cfg.Int("nodes", 1)
+		typ := cfg.Str("type", "node")
+		if nodes < 1 || nodes > 4 || (typ != redis.NodeType && typ != redis.ClusterType) {
+			panic("bad section cfg")
+		}
+		place := map[string]int{}
+		if p := cfg.Str("place", "-"); p != "-" && p != "" {
+			for _, e := range strings.Split(p, ",") {
+				f := strings.Split(e, ":")
+				place[f[0]] = verifh.Atoi(f[1])
+			}
 		}
 		// a fresh cleaner wheel per section: pending retries of one section never leak into the next
 		cleaner := cache.VerifC06SwapCleaner()
-		h := &c06Harness{}
-		rds := redis.New(mr.Addr(), redis.WithHook(c06Hook{h}))
+		h := &c06Harness{tok: map[string]string{}}
+		mrs := make([]*miniredis.Miniredis, nodes)
+		nodeOf := map[string]int{} // address -> node index
+		var conf cache.CacheConf
+		for i := range mrs {
+			mrs[i] = miniredis.NewMiniRedis()
+			if err := mrs[i].Start(); err != nil {
+				panic(err)
+			}
+			mrs[i].Server().SetPreHook(h.hook(i))
+			nodeOf[mrs[i].Addr()] = i
+			conf = append(conf, cache.NodeConf{RedisConf: redis.RedisConf{Host: mrs[i].Addr(), Type: typ}, Weight: 100})
+		}
 		var opts []cache.Option
 		if e := cfg.Int("exp", 0); e != 0 {
 			opts = append(opts, cache.WithExpiry(time.Duration(e)*time.Millisecond))
@@ -226,30 +298,76 @@ func TestVerifC06(t *testing.T) {
 		if e := cfg.Int("nf", 0); e != 0 {
 			opts = append(opts, cache.WithNotFoundExpiry(time.Duration(e)*time.Millisecond))
 		}
-		cc := NewNodeConn(nil, rds, opts...)
+		cc := NewConn(nil, conf, opts...)
+		if want := map[bool]string{true: "node", false: "cluster"}[nodes == 1]; cache.VerifC06Kind(cc.cache) != want {
+			panic("cache.New built a " + cache.VerifC06Kind(cc.cache) + " for " + strconv.Itoa(nodes) + " node(s)")
+		}
 		src := &c06Src{}
-		cache.VerifC06SetJitterSource(cc.cache, src)
+		cache.VerifC06SetJitterSource(cc.cache, src, nodes)
+
+		// token -> Redis key: salted so that the dispatcher sends it to the node the section asks for
+		real := map[string]string{}
+		key := func(tok string) string {
+			if k, ok := real[tok]; ok {
+				return k
+			}
+			want := place[tok]
+			if want >= nodes {
+				panic("place names a node that does not exist: " + tok)
+			}
+			for salt := 0; salt < 100000; salt++ {
+				k := tok + "#" + strconv.Itoa(salt)
+				if nodeOf[cache.VerifC06NodeAddr(cc.cache, k)] == want {
+					real[tok] = k
+					h.mu.Lock()
+					h.tok[k] = tok
+					h.mu.Unlock()
+					return k
+				}
+			}
+			panic("no salt sends " + tok + " to node " + strconv.Itoa(want))
+		}
+		keysOf := func(toks string) []string {
+			if toks == "-" {
+				return nil
+			}
+			var out []string
+			for _, t := range strings.Split(toks, ",") {
+				out = append(out, key(t))
+			}
+			return out
+		}
 
 		rows := map[int]c06Row{}
 		idx := map[int]int{}
 		queries := 0
 		ctx := context.Background()
-		keyer := func(primary any) string { return fmt.Sprintf("p%v", primary) }
+		keyer := func(primary any) string { return key(fmt.Sprintf("p%v", primary)) }
 
 		dump := func() string {
-			keys := mr.Keys()
-			sort.Strings(keys)
-			out := make([]string, 0, len(keys))
-			for _, k := range keys {
-				v, err := mr.Get(k)
-				if err != nil {
-					v = "?" + err.Error()
+			var out []string
+			for i, mr := range mrs {
+				keys := mr.Keys()
+				ents := make([]string, 0, len(keys))
+				for _, k := range keys {
+					v, err := mr.Get(k)
+					if err != nil {
+						v = "?" + err.Error()
+					}
+					ttl := "inf"
+					if d := mr.TTL(k); d > 0 {
+						ttl = strconv.FormatInt(int64(d/time.Millisecond), 10)
+					}
+					h.mu.Lock()
+					t, ok := h.tok[k]
+					h.mu.Unlock()
+					if !ok {
+						t = "raw:" + hex.EncodeToString([]byte(k))
+					}
+					ents = append(ents, fmt.Sprintf("%d/%s=%s@%s", i, t, c06Canon(v), ttl))
 				}
-				ttl := "inf"
-				if d := mr.TTL(k); d > 0 {
-					ttl = strconv.FormatInt(int64(d/time.Millisecond), 10)
-				}
-				out = append(out, fmt.Sprintf("%s=%s@%s", k, c06Canon(v), ttl))
+				sort.Strings(ents)
+				out = append(out, ents...)
 			}
 			return strings.Join(out, " ")
 		}
@@ -258,15 +376,15 @@ func TestVerifC06(t *testing.T) {
 			timex.VerifAdvance(20 * time.Second)
 			src.setJ(verifh.Atoi(c06Opt(op, "j", "500")))
 			dbfail := c06Opt(op, "db", "0") == "1"
-			h.begin(c06Opt(op, "c", ""), false, false)
+			h.begin(c06ModeOrder, c06Opt(op, "c", ""))
 			queries = 0
 			res := ""
-			sortCmds := false
+			how := "order"
 			switch op[0] {
 			case "take":
 				pk := verifh.Atoi(op[1][1:])
 				var v c06Row
-				err := cc.QueryRowCtx(ctx, &v, c06Key(op[1]), func(ctx context.Context, conn sqlx.SqlConn, v any) error {
+				err := cc.QueryRowCtx(ctx, &v, key(op[1]), func(ctx context.Context, conn sqlx.SqlConn, v any) error {
 					queries++
 					if dbfail {
 						return errC06DB
@@ -299,7 +417,7 @@ func TestVerifC06(t *testing.T) {
 						started++
 						mu.Unlock()
 						var v c06Row
-						err := cc.QueryRowCtx(ctx, &v, c06Key(op[1]), func(ctx context.Context, conn sqlx.SqlConn, v any) error {
+						err := cc.QueryRowCtx(ctx, &v, key(op[1]), func(ctx context.Context, conn sqlx.SqlConn, v any) error {
 							mu.Lock()
 							inflight++
 							total++
@@ -352,7 +470,7 @@ func TestVerifC06(t *testing.T) {
 			case "qindex":
 				a := verifh.Atoi(op[1][1:])
 				var v c06Row
-				err := cc.QueryRowIndexCtx(ctx, &v, c06Key(op[1]), keyer,
+				err := cc.QueryRowIndexCtx(ctx, &v, key(op[1]), keyer,
 					func(ctx context.Context, conn sqlx.SqlConn, v any) (any, error) {
 						queries++
 						if dbfail {
@@ -403,14 +521,14 @@ func TestVerifC06(t *testing.T) {
 			case "get":
 				if op[1][0] == 'p' {
 					var v c06Row
-					err := cc.GetCacheCtx(ctx, c06Key(op[1]), &v)
+					err := cc.GetCacheCtx(ctx, key(op[1]), &v)
 					res = c06Err(err)
 					if err == nil {
 						res = fmt.Sprintf("val:r:%d:%d:%d", v.Id, v.V, v.A)
 					}
 				} else {
 					var v any
-					err := cc.GetCacheCtx(ctx, c06Key(op[1]), &v)
+					err := cc.GetCacheCtx(ctx, key(op[1]), &v)
 					res = c06Err(err)
 					if err == nil {
 						f, ok := v.(json.Number)
@@ -422,10 +540,9 @@ func TestVerifC06(t *testing.T) {
 					}
 				}
 			case "exec":
-				var keys []string
-				if op[1] != "-" {
-					keys = strings.Split(op[1], ",")
-				}
+				keys := keysOf(op[1])
+				h.begin(c06ModeNode, c06Opt(op, "c", ""))
+				how = "node"
 				w := strings.Split(op[2], ":")
 				_, err := cc.ExecCtx(ctx, func(ctx context.Context, conn sqlx.SqlConn) (sql.Result, error) {
 					queries++
@@ -453,45 +570,49 @@ func TestVerifC06(t *testing.T) {
 				}, keys...)
 				res = c06Err(err)
 			case "del":
-				var keys []string
-				if op[1] != "-" {
-					keys = strings.Split(op[1], ",")
-				}
+				keys := keysOf(op[1])
+				h.begin(c06ModeNode, c06Opt(op, "c", ""))
+				how = "node"
 				res = c06Err(cc.DelCacheCtx(ctx, keys...))
 			case "set":
 				v, _ := c06Val(op[2])
-				res = c06Err(cc.SetCacheCtx(ctx, c06Key(op[1]), v))
+				res = c06Err(cc.SetCacheCtx(ctx, key(op[1]), v))
 			case "setx":
 				v, _ := c06Val(op[2])
-				res = c06Err(cc.SetCacheWithExpireCtx(ctx, c06Key(op[1]), v, time.Duration(verifh.Atoi64(op[3]))*time.Millisecond))
+				res = c06Err(cc.SetCacheWithExpireCtx(ctx, key(op[1]), v, time.Duration(verifh.Atoi64(op[3]))*time.Millisecond))
 			case "raw":
 				_, raw := c06Val(op[2])
-				if err := mr.Set(c06Key(op[1]), raw); err != nil {
+				mr := mrs[place[op[1]]]
+				if err := mr.Set(key(op[1]), raw); err != nil {
 					panic(err)
 				}
-				mr.SetTTL(c06Key(op[1]), time.Duration(verifh.Atoi64(op[3]))*time.Millisecond)
+				mr.SetTTL(key(op[1]), time.Duration(verifh.Atoi64(op[3]))*time.Millisecond)
 				res = "ok"
 			case "ft":
-				mr.FastForward(time.Duration(verifh.Atoi64(op[1])) * time.Millisecond)
+				for _, mr := range mrs {
+					mr.FastForward(time.Duration(verifh.Atoi64(op[1])) * time.Millisecond)
+				}
 				res = "ok"
 			case "tick":
 				n := verifh.Atoi(op[1])
-				h.begin("", true, c06Opt(op, "c", "0") == "1")
+				h.begin(c06ModeDown, c06Opt(op, "c", "0"))
 				for i := 0; i < n; i++ {
 					timex.VerifAdvance(20 * time.Second)
 					cleaner.Tick()
 				}
-				sortCmds = true
+				how = "text"
 				res = "ok"
 			default:
 				return "bad-op"
 			}
 			cleaner.Sync()
-			return fmt.Sprintf("%s q=%d cmds=%s | %s", res, queries, h.cmds(sortCmds), dump())
+			return fmt.Sprintf("%s q=%d cmds=%s | %s", res, queries, h.cmds(how), dump())
 		}
 		return step, func() {
 			cleaner.Close()
-			mr.Close()
+			for _, mr := range mrs {
+				mr.Close()
+			}
 		}
 	})
 }
@@ -527,7 +648,7 @@ func (d *c06GenDB) write(w string) []string {
 }
 
 func c06Mask(r *verifh.Rng, n int) string {
-	switch r.Intn(10) {
+	switch r.Intn(12) {
 	case 0, 1, 2, 3, 4, 5, 6:
 		return ""
 	case 7:
@@ -538,11 +659,46 @@ func c06Mask(r *verifh.Rng, n int) string {
 			b[i] = "01"[r.Intn(2)]
 		}
 		return " c=" + string(b)
+	case 9:
+		// everything after the i-th command fails: the node of a later command is down
+		return " c=" + r.PickS("01", "001", "011", "0011", "0111")
 	default:
 		b := []byte(strings.Repeat("0", n))
 		b[r.Intn(n)] = '1'
 		return " c=" + string(b)
 	}
+}
+
+// c06DelMask draws the per-node outcome masks of an exec / del with up to nk keys over `nodes` nodes:
+// no fault, one node down (every DEL to it fails) while the others are up, all nodes down, only the
+// first / only a later DEL of a node failing, random bits.
+func c06DelMask(r *verifh.Rng, nodes, nk int) string {
+	ms := make([]string, nodes)
+	switch r.Intn(16) {
+	case 0, 1, 2, 3, 4, 5, 6:
+		return ""
+	case 7, 8:
+		ms[r.Intn(nodes)] = strings.Repeat("1", nk)
+	case 9:
+		for i := range ms {
+			ms[i] = strings.Repeat("1", nk)
+		}
+	case 10, 11:
+		ms[r.Intn(nodes)] = "1"
+	case 12, 13:
+		b := []byte(strings.Repeat("0", nk))
+		b[r.Range(1, nk-1)] = '1'
+		ms[r.Intn(nodes)] = string(b)
+	default:
+		for i := range ms {
+			b := make([]byte, nk)
+			for k := range b {
+				b[k] = "01"[r.Intn(2)]
+			}
+			ms[i] = string(b)
+		}
+	}
+	return " c=" + strings.Join(ms, "/")
 }
 
 func c06J(r *verifh.Rng) string {
@@ -567,7 +723,7 @@ func c06DBFault(r *verifh.Rng) string {
 
 // the scenario of DESIGN section 7 #9, replayed on every run: a failed DEL during Exec leaves the old row
 // in the cache until a retry of the cleaner succeeds.
-var c06StaleScenario = verifh.Section{Cfg: "exp=20000 nf=3000 stale=report", Ops: []string{
+var c06StaleScenario = verifh.Section{Cfg: "exp=20000 nf=3000 stale=report nodes=1 type=node place=-", Ops: []string{
 	"exec p1,x1 put:1:10:1", "take p1 j=500", "qindex x1 j=0",
 	"exec p1,x1 put:1:11:1 c=1", "take p1 j=500", "qindex x1 j=500",
 	"tick 1 c=1", "take p1", "tick 4 c=0", "take p1", "tick 1 c=0", "take p1 j=1000", "qindex x1 j=1000",
@@ -576,9 +732,21 @@ var c06StaleScenario = verifh.Section{Cfg: "exp=20000 nf=3000 stale=report", Ops
 	"tick 1 c=1", "tick 3600 c=0", "take p1", "ft 18999", "take p1", "ft 1", "take p1", "ft 3000", "take p1",
 }}
 
+// cluster-type Redis behind a two-node cacheCluster, replayed on every run: the per-key DEL loop with the
+// first / a later DEL failing, one node down while the other is up, retries per node.
+var c06ClusterScenario = verifh.Section{Cfg: "exp=20000 nf=3000 stale=report nodes=2 type=cluster place=p1:0,x1:1,p2:0,x2:0", Ops: []string{
+	"exec p1,x1 put:1:10:1", "exec p2,x2 put:2:20:2", "qindex x1 j=500", "qindex x2 j=500",
+	// node 0 loops over p1, p2, x2: the DEL of p1 fails, the two after it must still run
+	"del p1,p2,x2,x1 c=100/0", "tick 1 c=00", "qindex x1 j=0", "qindex x2 j=1000",
+	// node 1 down during the Exec: x1 keeps its entry, p1 (node 0) is invalidated
+	"exec p1,x1 put:1:11:1 c=/1", "take p1 j=500", "qindex x1 j=500", "tick 1 c=01", "tick 4 c=01", "tick 1 c=00", "qindex x1",
+	// a later DEL of the loop fails, the index moves to another row
+	"exec p2,x2,x1 put:2:21:1 c=010/0", "qindex x2", "qindex x1 j=500", "tick 1 c=10", "tick 5 c=00", "qindex x2", "take p2",
+}}
+
 func c06Gen(r *verifh.Rng) []verifh.Section {
-	secs := []verifh.Section{c06StaleScenario}
-	nsec := verifh.Scale(40, 400)
+	secs := []verifh.Section{c06StaleScenario, c06ClusterScenario}
+	nsec := verifh.Scale(44, 400)
 	for i := 0; i < nsec; i++ {
 		exp := r.Pick(0, 20000, 2500, 1000, 60000, 7000)
 		nf := r.Pick(0, 1000, 3000, 10000)
@@ -592,18 +760,58 @@ func c06Gen(r *verifh.Rng) []verifh.Section {
 		db := &c06GenDB{rows: map[int][2]int{}, idx: map[int]int{}}
 		nk := r.Range(1, 3)
 		pkey := func() int { return r.Intn(nk) }
+		// topology: one node (plain cacheNode) or a cacheCluster of 2..3, node-type or cluster-type Redis;
+		// placement: everything on one node / primary keys and index keys apart / random
+		nodes := r.Pick(1, 1, 2, 2, 3)
+		typ := r.PickS("node", "cluster", "cluster")
+		var pl []string
+		if nodes > 1 {
+			mode := r.Intn(4)
+			for k := 0; k < nk; k++ {
+				a, b := r.Intn(nodes), r.Intn(nodes)
+				switch mode {
+				case 0:
+					a, b = 1, 1
+				case 1:
+					b = (a + 1) % nodes
+				}
+				pl = append(pl, fmt.Sprintf("p%d:%d", k, a), fmt.Sprintf("x%d:%d", k, b))
+			}
+		}
+		place := "-"
+		if len(pl) > 0 {
+			place = strings.Join(pl, ",")
+		}
+		downBits := func() string {
+			b := make([]byte, nodes)
+			switch r.Intn(6) {
+			case 0:
+				for k := range b {
+					b[k] = '1'
+				}
+			case 1:
+				for k := range b {
+					b[k] = "01"[r.Intn(2)]
+				}
+			default:
+				for k := range b {
+					b[k] = '0'
+				}
+			}
+			return string(b)
+		}
 		var ops []string
 		nops := r.Range(10, verifh.Scale(60, 90))
 		val := 0
 		for len(ops) < nops {
 			switch x := r.Intn(100); {
-			case x < 28:
+			case x < 26:
 				ops = append(ops, fmt.Sprintf("take p%d%s%s%s", pkey(), c06J(r), c06Mask(r, 3), c06DBFault(r)))
-			case x < 42:
+			case x < 40:
 				ops = append(ops, fmt.Sprintf("qindex x%d%s%s%s", pkey(), c06J(r), c06Mask(r, 4), c06DBFault(r)))
-			case x < 44:
+			case x < 42:
 				ops = append(ops, fmt.Sprintf("ctake p%d n=%d%s%s", pkey(), r.Range(2, 6), c06J(r), c06DBFault(r)))
-			case x < 64:
+			case x < 62:
 				val++
 				w := fmt.Sprintf("put:%d:%d:%d", pkey(), val, pkey())
 				if r.Chance(1, 4) {
@@ -623,29 +831,35 @@ func c06Gen(r *verifh.Rng) []verifh.Section {
 					}
 					keys = cp.write(w)
 				}
-				if r.Chance(1, 10) {
+				switch r.Intn(12) {
+				case 0:
 					// a write that does not name every affected key (outside the property's proviso)
 					keys = keys[:r.Intn(len(keys))]
+				case 1:
+					// the keys in another order
+					for k := len(keys) - 1; k > 0; k-- {
+						o := r.Intn(k + 1)
+						keys[k], keys[o] = keys[o], keys[k]
+					}
+				case 2:
+					// a key named twice / a key that is not affected
+					keys = append(keys, r.PickS(keys[0], fmt.Sprintf("p%d", pkey()), fmt.Sprintf("x%d", pkey())))
 				}
 				ks := "-"
 				if len(keys) > 0 {
 					ks = strings.Join(keys, ",")
 				}
-				m := ""
-				if r.Chance(1, 4) {
-					m = " c=1"
-				}
-				ops = append(ops, fmt.Sprintf("exec %s %s%s%s", ks, w, m, dbf))
+				ops = append(ops, fmt.Sprintf("exec %s %s%s%s", ks, w, c06DelMask(r, nodes, 4), dbf))
 			case x < 69:
-				ks := fmt.Sprintf("p%d", pkey())
-				if r.Bool() {
-					ks += fmt.Sprintf(",x%d", pkey())
+				var keys []string
+				for k := r.Pick(1, 1, 2, 2, 3, 4); k > 0; k-- {
+					keys = append(keys, fmt.Sprintf("%s%d", r.PickS("p", "x"), pkey()))
 				}
-				m := ""
-				if r.Chance(1, 3) {
-					m = " c=1"
+				ks := strings.Join(keys, ",")
+				if r.Chance(1, 12) {
+					ks = "-"
 				}
-				ops = append(ops, fmt.Sprintf("del %s%s", ks, m))
+				ops = append(ops, fmt.Sprintf("del %s%s", ks, c06DelMask(r, nodes, 4)))
 			case x < 74:
 				pk := pkey()
 				key, v := fmt.Sprintf("p%d", pk), fmt.Sprintf("r:%d:%d:%d", pk, 900+r.Intn(5), pkey())
@@ -670,7 +884,7 @@ func c06Gen(r *verifh.Rng) []verifh.Section {
 					key = fmt.Sprintf("x%d", pkey())
 				}
 				ops = append(ops, fmt.Sprintf("raw %s j:%d %d", key, r.Intn(9), r.Pick(1000, 5000, 100000)))
-			case x < 90:
+			case x < 89:
 				d := r.Pick(1, 500, 999, 1000, 1001, 5000, n*95/100, n, n*105/100, e*95/100-1, e*95/100, e, e*105/100, e*105/100+5000, r.Range(1, 2*n))
 				if d < 1 {
 					d = 1
@@ -681,14 +895,10 @@ func c06Gen(r *verifh.Rng) []verifh.Section {
 				if verifh.Thorough() && r.Chance(1, 20) {
 					nt = 3600
 				}
-				c := 0
-				if r.Chance(1, 3) {
-					c = 1
-				}
-				ops = append(ops, fmt.Sprintf("tick %d c=%d", nt, c))
+				ops = append(ops, fmt.Sprintf("tick %d c=%s", nt, downBits()))
 			}
 		}
-		secs = append(secs, verifh.Section{Cfg: fmt.Sprintf("exp=%d nf=%d stale=report", exp, nf), Ops: ops})
+		secs = append(secs, verifh.Section{Cfg: fmt.Sprintf("exp=%d nf=%d stale=report nodes=%d type=%s place=%s", exp, nf, nodes, typ, place), Ops: ops})
 	}
 	return secs
 }
